@@ -204,6 +204,12 @@ def run_case(col, case, only_rect=None):
             trim="none")
         return
 
+    if case.get("rows_only"):
+        # announce/render agreement for extreme aspect ratios; the trims of such canvases add nothing new
+        col.inc("flow_rows_cases")
+        col.add_distinct(h64(repr((case["kind"], case["img"], W, H, case["upscale"])).encode() + b"".join(full_rows)))
+        return
+
     cache = {}
 
     def ex(data, cols):
@@ -344,6 +350,13 @@ def build_cases(tier):
                                     continue
                                 cases.append(dict(kind=kind, img=img, size=list(size), h=h, v=v,
                                                   upscale=upscale, alpha=alpha))
+        # portrait / strongly landscape sources: rows((c,)) must announce what render((c,)) produces for every
+        # flow width and both sizing modes (the two duplicated size conditions only disagree off the diagonal)
+        for img in ("1x4", "2x6", "3x9", "6x1", "8x2", "1x1"):
+            for c in range(1, 11):
+                for upscale in (False, True):
+                    cases.append(dict(kind=kind, img=img, size=[c], h="|", v="-", upscale=upscale, alpha="",
+                                      rows_only=True))
         if style == "kitty" or kind == "iterm2-lines@konsole":
             # images that carry a disguise (kitty; iterm2 on konsole): every disguise state
             for dis in ((1, 0), (2, 0), (0, 1), (2, 2)):
